@@ -221,10 +221,21 @@ func c11CleanupScenario(c *fw.Ctx, idx int, sc c11Cleanup) {
 	if sc.cause == "silence" {
 		ka = 1
 	}
-	v, err := host.MustConnect(kit.ConnectOpts{ClientID: clientID, KeepAlive: ka, Clean: true})
-	if err != nil {
-		c.Inconclusive(desc + ": connect: " + err.Error())
-		return
+	var v *kit.Client
+	var fault *kit.FaultConn
+	var err error
+	if sc.cause == "suback-write-fails" {
+		v, fault = host.DialFaulty(clientID)
+		if code, cerr := v.Connect(kit.ConnectOpts{ClientID: clientID, KeepAlive: ka, Clean: true}); cerr != nil || code != 0 {
+			c.Inconclusive(desc + ": connect failed")
+			return
+		}
+	} else {
+		v, err = host.MustConnect(kit.ConnectOpts{ClientID: clientID, KeepAlive: ka, Clean: true})
+		if err != nil {
+			c.Inconclusive(desc + ": connect: " + err.Error())
+			return
+		}
 	}
 	defer v.Close()
 	for _, f := range sc.filters {
@@ -282,6 +293,35 @@ func c11CleanupScenario(c *fw.Ctx, idx int, sc c11Cleanup) {
 		// nothing is sent; the broker's allowance is 2 x keep-alive
 	case "second-connect":
 		v.Send(kit.EncConnect(kit.ConnectOpts{ClientID: clientID, KeepAlive: 600, Clean: true}))
+	case "suback-write-fails":
+		// the connection breaks in the outbound direction exactly when the broker answers a SUBSCRIBE:
+		// the subscriptions of that packet were created, the SUBACK cannot be written, the session ends
+		fault.FailWrites(true)
+		v.Send(kit.EncSubscribe(99, []string{"c11/late/a", "c11/late/+"}, []int{0, 1}))
+		expectEOF = false
+		go func() { time.Sleep(300 * time.Millisecond); v.Close() }()
+	case "displaced-then-old-host-fails":
+		// the client re-connects on another node; the old host fails before the old session's next
+		// keep-alive exchange, i.e. while it still holds the displaced session and its subscriptions
+		target := nodes[(sc.host+1)%sc.nNodes]
+		newer, err = target.MustConnect(kit.ConnectOpts{ClientID: clientID, KeepAlive: 600, Clean: true})
+		if err != nil {
+			c.Violation("takeover-refused", fmt.Sprintf("%s: the newer connection was not accepted: %v", desc, err), wit(nil))
+			return
+		}
+		defer newer.Close()
+		cl.StopPump()
+		cl.Quiesce()
+		cl.FailNode(host)
+		survivors = []*kit.Node{}
+		for _, n := range nodes {
+			if n != host {
+				survivors = append(survivors, n)
+			}
+		}
+		cl.StartPump(3 * time.Millisecond)
+		expectEOF = false
+		time.Sleep(3200 * time.Millisecond)
 	case "garbage":
 		v.Send([]byte{0xf0, 0x02, 0x00, 0x00}) // reserved packet type 15
 	case "displaced-same-node", "displaced-other-node":
@@ -392,7 +432,7 @@ func c11CleanupScenario(c *fw.Ctx, idx int, sc c11Cleanup) {
 }
 
 func runC11(c *fw.Ctx) {
-	c.Rule = "(A) no spurious end: clients with keep-alive 2/5/10 s idle for 0.5-0.75 of it right after CONNECT, after SUBSCRIBE or between pings, measuring their own send times, then send PINGREQ; verdict only if every measured gap stayed <= 0.8 x keep-alive. (B) cleanup: cause in {DISCONNECT, client closes, silence beyond the allowance, second CONNECT, undecodable packet, displacement on the same / another node followed by the old session's PINGREQ, failure of the hosting node} x subscription sets (none, one, several, after unsubscribes) x 1-3 nodes with a running gossip pump; observed: EOF at the client end, SessionMetadatas/Subscriptions listings and local registries of every node (polled <= 10 s), packets at the ended session's pipe after later publishes (witness barrier), and at quiescence the invariant 'every listed subscription belongs to a listed session connected on the node it names'. distinct = scenario parameters; non-trivial = all"
+	c.Rule = "(A) no spurious end: clients with keep-alive 2/5/10 s idle for 0.5-0.75 of it right after CONNECT, after SUBSCRIBE or between pings, measuring their own send times, then send PINGREQ; verdict only if every measured gap stayed <= 0.8 x keep-alive. (B) cleanup: cause in {DISCONNECT, client closes, silence beyond the allowance, second CONNECT, undecodable packet, displacement on the same / another node followed by the old session's PINGREQ, failure of the hosting node, outbound write failure exactly at a SUBACK (fault-injecting connection), displacement followed by the failure of the old host before the old session's next keep-alive exchange} x subscription sets (none, one, several, after unsubscribes) x 1-3 nodes with a running gossip pump; observed: EOF at the client end, SessionMetadatas/Subscriptions listings and local registries of every node (polled <= 10 s), packets at the ended session's pipe after later publishes (witness barrier), and at quiescence the invariant 'every listed subscription belongs to a listed session connected on the node it names'. distinct = scenario parameters; non-trivial = all"
 	c.Assume("keep-alive allowance: a client that never lets more than 0.8 x keep-alive pass between packets is within it (MQTT allows 1.5 x)")
 	c.Assume("teardown predicates are polled for <= 10 s; there is no code path that makes them true later than the teardown itself")
 	var wg sync.WaitGroup
@@ -408,14 +448,14 @@ func runC11(c *fw.Ctx) {
 		wg.Add(1)
 		go func(i int, sc c11Idle) { defer wg.Done(); c11NoSpuriousEnd(c, i, sc) }(i, sc)
 	}
-	causes := []string{"disconnect", "close", "silence", "second-connect", "garbage", "displaced-same-node", "displaced-other-node", "node-failure"}
+	causes := []string{"disconnect", "close", "silence", "second-connect", "garbage", "displaced-same-node", "displaced-other-node", "node-failure", "suback-write-fails", "displaced-then-old-host-fails"}
 	filterSets := [][]string{{}, {"c11/a"}, {"c11/a", "c11/+/b", "c11/#", "c11/c/d"}}
 	scen := []c11Cleanup{}
 	rg := c.SubRng("c11", 0)
 	for _, cause := range causes {
 		for fi, fs := range filterSets {
 			for nn := 1; nn <= 3; nn++ {
-				if (cause == "displaced-other-node" || cause == "node-failure") && nn == 1 {
+				if (cause == "displaced-other-node" || cause == "node-failure" || cause == "displaced-then-old-host-fails") && nn == 1 {
 					continue
 				}
 				if c.Quick() && (fi+nn)%2 == 0 && cause != "disconnect" {
@@ -433,7 +473,7 @@ func runC11(c *fw.Ctx) {
 		for i := 0; i < 300; i++ {
 			cause := causes[rg.Intn(len(causes))]
 			nn := 1 + rg.Intn(3)
-			if (cause == "displaced-other-node" || cause == "node-failure") && nn == 1 {
+			if (cause == "displaced-other-node" || cause == "node-failure" || cause == "displaced-then-old-host-fails") && nn == 1 {
 				nn = 2
 			}
 			fs := filterSets[rg.Intn(len(filterSets))]
